@@ -44,7 +44,7 @@ func headerOf(tape []byte, ps []*party) (string, []byte, []int, error) {
 
 func runC06(cx *ctx) {
 	r := cx.rng
-	for i := 0; i < cx.n(120, 2000); i++ {
+	for i := 0; i < cx.n(500, 5000); i++ {
 		rr := r.Fork()
 		cx.ru.Do(func() *h.Case {
 			var ps []*party
@@ -124,7 +124,7 @@ func runC06(cx *ctx) {
 		})
 	}
 	// several files in one history: one long tape, consecutive ranges; and independence across tapes
-	for i := 0; i < cx.n(30, 400); i++ {
+	for i := 0; i < cx.n(150, 1500); i++ {
 		rr := r.Fork()
 		cx.ru.Do(func() *h.Case {
 			nFiles := 2 + rr.Intn(4)
